@@ -373,7 +373,7 @@ def filter_doc(r, names, strings, depth=0):
 # ---------------------------------------------------------------- documented extensions (C13)
 
 MEM_LEAVES = ["a", "b", "ab", "xaby", "", "v1", 2, 3, 10, None, 2.5]
-CTX_DEFAULT = {"k": 2, "s": "xaby", "list": ["a", 2, None, "v1"], "o": {"a": 1, "b": {"k": 3}}, "n": None, "names": ["a", "b"]}
+CTX_DEFAULT = {"k": 2, "s": "xaby", "list": ["a", 2, None, "v1"], "o": {"a": 1, "b": {"k": 3}}, "n": None, "names": ["a", "b"], "t": ["number"], "types": {"number": 1}}
 
 
 class ExtFilterGen(FilterGen):
@@ -417,6 +417,8 @@ class ExtFilterGen(FilterGen):
         if k < 0.38:
             pattern, witness = gen_regex(r)
             flags = "".join(sorted(r.sample("aims", r.randint(0, 2))))
+            if r.random() < 0.25:
+                flags = "".join(r.choice("aims") for _ in range(r.randint(1, 3)))  # repeats and any order are legal
             self.witnesses += [witness, witness.upper(), "q" + witness, witness + "\n" + witness]
             return ["cmp", "=~", ["sq", self.query(True, depth)] if r.random() < 0.8 else ["key"], ["regex", pattern, flags]]
         if k < 0.5:
